@@ -46,16 +46,16 @@ Proof.
   rewrite settle_mig. reflexivity.
 Qed.
 
-Lemma close_mig : forall b s x, mig (close_active b s x) = mig s.
+Lemma close_mig : forall b c s x, mig (close_active b c s x) = mig s.
 Proof.
   intros. unfold close_active. destruct (sget Z.eqb (snd x) (props (gov s))); [|reflexivity].
-  rewrite settle_mig. reflexivity.
+  destruct (memZ (snd x) c); [reflexivity|]. rewrite settle_mig. reflexivity.
 Qed.
 
-Lemma end_block_mig : forall t n b s, mig (end_block t n b s) = mig s.
+Lemma end_block_mig : forall t n b c s, mig (end_block t n b c s) = mig s.
 Proof.
   intros. unfold end_block. cbn [mig set_clock]. rewrite sebl_mig. unfold gov_endblock.
-  rewrite (fold_keeps mig _ (close_mig b)), (fold_keeps mig _ drop_mig). reflexivity.
+  rewrite (fold_keeps mig _ (close_mig b c)), (fold_keeps mig _ drop_mig). reflexivity.
 Qed.
 
 Lemma add_deposit_mig : forall pid a amt s s', add_deposit pid a amt s = Ok s' -> mig s' = mig s.
@@ -65,9 +65,9 @@ Proof.
     (destruct (bal_of s a (bond_denom (cfg s)) - locked_of s a (bond_denom (cfg s)) <? amt); [discriminate|]; intros H; inversion H; cbn [mig set_gov]; apply pay_mig).
 Qed.
 
-Lemma submit_mig : forall a amt s s', submit_proposal a amt s = Ok s' -> mig s' = mig s.
+Lemma submit_mig : forall a amt x vp m s s', submit_proposal a amt x vp m s = Ok s' -> mig s' = mig s.
 Proof.
-  intros a amt s s'. unfold submit_proposal.
+  intros a amt x vp m s s'. unfold submit_proposal.
   match goal with |- match ?x with _ => _ end = _ -> _ => destruct x as [s2| |] eqn:E end; try discriminate.
   intros H. inversion H. subst. apply add_deposit_mig in E. exact E.
 Qed.
@@ -106,12 +106,12 @@ Section Hist.
 
   Lemma step_keeps_record : forall s o a, has_record s a = true -> has_record (step sigT recover s o) a = true.
   Proof.
-    intros s o a H. destruct o as [f t sg | t n b | b amt | b pid amt | b pid | h]; cbn [step].
+    intros s o a H. destruct o as [f t sg | t n b c | b amt x vp m | b pid amt | b pid | h]; cbn [step].
     - destruct (migrate_tx sigT recover s f t sg) as [s'| |] eqn:E; cbn [keep]; try exact H.
       rewrite (migrate_tx_records _ _ _ _ _ a E), H. apply orb_true_r.
     - unfold has_record. rewrite end_block_mig. exact H.
-    - destruct (submit_proposal b amt s) as [s'| |] eqn:E; cbn [keep]; try exact H.
-      unfold has_record. rewrite (submit_mig _ _ _ _ E). exact H.
+    - destruct (submit_proposal b amt x vp m s) as [s'| |] eqn:E; cbn [keep]; try exact H.
+      unfold has_record. rewrite (submit_mig _ _ _ _ _ _ _ E). exact H.
     - destruct (add_deposit pid b amt s) as [s'| |] eqn:E; cbn [keep]; try exact H.
       unfold has_record. rewrite (add_deposit_mig _ _ _ _ _ E). exact H.
     - destruct (cast_vote b pid s) as [s'| |] eqn:E; cbn [keep]; try exact H.
@@ -183,7 +183,7 @@ Definition no_recover : Z -> Z -> unit -> option Z := fun _ _ _ => None.
 
 (* proposal 1: source 1 proposes, stays in the deposit period; proposal 2 (by 9) is in its voting period,
    source 2 deposits on it, source 3 votes on it *)
-Definition ex_gov_ops : list (op unit) := [OSubmit unit 1 1000; OSubmit unit 9 10000; ODeposit unit 2 2 500; OVote unit 3 2].
+Definition ex_gov_ops : list (op unit) := [OSubmit unit 1 1000 false 1000 10000; OSubmit unit 9 10000 false 1000 10000; ODeposit unit 2 2 500; OVote unit 3 2].
 Definition ex_gov : state := run unit no_recover ex_init ex_gov_ops.
 
 Lemma accept_by_server : forall sigT (recover : Z -> Z -> sigT -> option Z) s from to x s',
@@ -210,6 +210,21 @@ Proof.
     + exists 2. eexists. split; [vm_compute; reflexivity|]. split; vm_compute; reflexivity.
     + exists 2. eexists. split; [vm_compute; reflexivity|]. split; vm_compute; reflexivity.
   - repeat split; vm_compute; reflexivity.
+Qed.
+
+(* an expedited proposal (voting period 100, opening deposit 500) proposed by source 1 fails at its first end time: the end
+   blocker converts it into a regular proposal (new end = voting start + default period), it stays queued and open, and
+   its proposer is still refused; after the regular end it is closed and the migration goes through *)
+Theorem gov_expedited_example :
+  let s1 := run unit sig_any ex_init [OSubmit unit 1 600 true 100 500; OEndBlock unit 200 205 [] [1]] in
+  let s2 := run unit sig_any ex_init [OSubmit unit 1 600 true 100 500; OEndBlock unit 200 205 [] [1]; OEndBlock unit 1100 1105 [] []] in
+  govwfb s1 = true /\ involved_open s1 1 /\ activeq (gov s1) = [(1010, 1)] /\
+  migrate_tx unit sig_any s1 1 5 (Some tt) = Err EGov /\
+  (exists s', migrate_tx unit sig_any s2 1 5 (Some tt) = Ok s').
+Proof.
+  cbv zeta. split; [vm_compute; reflexivity|]. split.
+  - exists 1. eexists. split; [vm_compute; reflexivity|]. split; vm_compute; reflexivity.
+  - split; [vm_compute; reflexivity|]. split; [vm_compute; reflexivity|]. eexists. vm_compute. reflexivity.
 Qed.
 
 (* ---- BEFORE commit f80617f (finding C14-1, fixed): the scan stopped at the block time.  This is a
